@@ -347,6 +347,92 @@ def rule_r5(ctx, rid="C03.R5") -> List[R.Inst]:
     return insts
 
 
+def rule_r7(ctx) -> List[R.Inst]:
+    """an object at absolute beat B is written to measure B // 4, row (B mod 4)/4 * rows: shapes of the row-index computation"""
+    from .. import sym
+    M = ctx.M
+    rid = "C03.R7"
+    wr = M.fn(S.SMMAP + ".write")
+    file = M.mods[wr.mod].rel
+    insts = []
+    stores = {}
+    for n in walk_no_nested(wr.node):
+        if isinstance(n, ast.Assign) and isinstance(n.targets[0], ast.Subscript) and isinstance(n.targets[0].value, ast.Name) and \
+                n.targets[0].value.id == "notes" and isinstance(n.targets[0].slice, ast.Constant):
+            stores[n.targets[0].slice.value] = n
+    augs = {unparse(n.target): n for n in walk_no_nested(wr.node) if isinstance(n, ast.AugAssign)}
+
+    def col(n):
+        t = unparse(n).replace('"', "'")
+        if t.startswith("notes.") and t.count(".") == 1:
+            return t[6:]
+        if t.startswith("notes['") and t.endswith("']"):
+            return t[7:-2]
+        return "M4" if t == "METRONOME" else None
+    # measure = beat // METRONOME
+    m = stores.get("measure")
+    if m is not None and isinstance(m.value, ast.BinOp) and isinstance(m.value.op, ast.FloorDiv) and col(m.value.left) == "beat" and \
+            col(m.value.right) == "M4":
+        insts.append(R.ok(rid, "measure", file, m.lineno, idiom="measure = beat // METRONOME"))
+    else:
+        insts.append((R.viol if m is not None else R.undec)(rid, "measure", file, (m or wr.node).lineno,
+                                                             "the measure of an object is its absolute beat // 4",
+                                                             construct=unparse(m) if m is not None else ""))
+    # den = denominator * METRONOME ; num = numerator mod den   => position in the measure = (beat mod 4) / 4
+    d, nn = stores.get("den"), stores.get("num")
+    d_ok = d is not None and isinstance(d.value, ast.ListComp) and unparse(d.value.elt).endswith(".denominator") and \
+        "notes.den" in augs and isinstance(augs["notes.den"].op, ast.Mult) and col(augs["notes.den"].value) == "M4"
+    n_ok = nn is not None and isinstance(nn.value, ast.ListComp) and unparse(nn.value.elt).endswith(".numerator") and \
+        "notes.num" in augs and isinstance(augs["notes.num"].op, ast.Mod) and col(augs["notes.num"].value) == "den"
+    order_ok = d_ok and n_ok and augs["notes.den"].lineno < augs["notes.num"].lineno
+    if d_ok and n_ok and order_ok:
+        insts.append(R.ok(rid, "position-in-measure", file, d.lineno, idiom="den = denominator*4; num = numerator mod den  (= (beat mod 4)/4)"))
+    else:
+        insts.append(R.viol(rid, "position-in-measure", file, (d or nn or wr.node).lineno,
+                            "position inside the measure must be (numerator mod (denominator*4)) / (denominator*4), the modulus taken "
+                            "after the denominator is scaled", construct="; ".join(unparse(x) for x in (d, nn) if x is not None)[:200]))
+    # row = num * (rows / den), exact ratio first; rows = min(lcm of the dens, MAX_SNAP)
+    loop = next((n for n in walk_no_nested(wr.node) if isinstance(n, ast.For) and unparse(n.iter) == "notes_gb"), None)
+    if loop is None:
+        insts.append(R.undec(rid, "row-index", file, wr.node.lineno, "per-measure loop not found"))
+        return insts
+    g = unparse(loop.target.elts[1]) if isinstance(loop.target, ast.Tuple) else "g"
+    la = {unparse(n.target): n for n in ast.walk(loop) if isinstance(n, ast.AugAssign)}
+    sc = la.get(f"{g}.num")
+
+    def gl(n):
+        t = unparse(n)
+        if t == f"{g}.den":
+            return "den"
+        if t == f"{g}.num":
+            return "num"
+        if t == "den_max":
+            return "rows"
+        return None
+    if sc is not None and isinstance(sc.op, ast.Mult) and sym.canon(sc.value, gl).same(sym.parse("rows / den")):
+        insts.append(R.ok(rid, "row-index", file, sc.lineno, idiom="num *= rows / den (exact ratio first)"))
+    elif sc is not None:
+        insts.append(R.viol(rid, "row-index", file, sc.lineno, "the row of an object is num * (rows of the measure / den)",
+                            construct=unparse(sc)))
+    else:
+        insts.append(R.undec(rid, "row-index", file, loop.lineno, "row scaling not recognised"))
+    st = [n for n in ast.walk(loop) if isinstance(n, ast.Assign) and isinstance(n.targets[0], ast.Subscript) and
+          isinstance(n.targets[0].value, ast.Subscript) and unparse(n.targets[0].value.value) == "lines"]
+    if len(st) == 1 and unparse(st[0].targets[0].value.slice).endswith(".num") and unparse(st[0].targets[0].slice).endswith(".column") and \
+            unparse(st[0].value).endswith(".char"):
+        insts.append(R.ok(rid, "cell-store", file, st[0].lineno, idiom="lines[row][column] = symbol"))
+    else:
+        insts.append(R.viol(rid, "cell-store", file, (st[0] if st else loop).lineno, "each object is stored at lines[its row][its column]",
+                            construct=unparse(st[0]) if st else "no store"))
+    rows = [n for n in ast.walk(loop) if isinstance(n, ast.Assign) and unparse(n.targets[0]) == "lines"]
+    if rows and "range(keys)" in unparse(rows[0].value) and "range(den_max)" in unparse(rows[0].value):
+        insts.append(R.ok(rid, "grid", file, rows[0].lineno, idiom="den_max rows of `keys` cells"))
+    else:
+        insts.append(R.viol(rid, "grid", file, (rows[0] if rows else loop).lineno, "a measure is a grid of den_max rows by `keys` cells",
+                            construct=unparse(rows[0]) if rows else ""))
+    return insts
+
+
 def rule_r6(ctx) -> List[R.Inst]:
     """row width: every note row of a chart has as many characters as the chart type has keys"""
     M = ctx.M
@@ -398,6 +484,7 @@ SPECS = [
     RuleSpec("C03.R3", rule_r3, 16, "A5", "times / columns / symbols enumerate the same lists in the same order; holds = head + tail"),
     RuleSpec("C03.R4", rule_r4, 2, "A5", "tempo and stop pairing: beats of a list zipped with that same list"),
     RuleSpec("C03.R5", rule_r5, 5, "A1", "per-chart header order equals the reader's positions"),
+    RuleSpec("C03.R7", rule_r7, 5, "A7", "row index shapes: measure = beat // 4, position (beat mod 4)/4, row = num * rows/den, cell store"),
     RuleSpec("C03.R6", rule_r6, 2, "A7", "note rows are as wide as the chart type's key count"),
     RuleSpec("C03.D", rule_dep, 1, "M0", "rules of the shared code (timing engine, list classes, stacker) that the operations of this property reach"),
 ]
